@@ -25,9 +25,9 @@ def scenario(i, kind, action, nesting, pos):
     if action == "parse":
         act = {"act": "parse", "text": "1 + 2 * q"}
     elif action == "exec_fresh":
-        act = {"act": "exec_fresh", "text": "1 + 2 * 3"}
+        act = {"act": "exec_fresh", "text": "p = 1; q = p + 1; q * 3 + 1"}
     elif action == "exec_same":
-        act = {"act": "exec_same", "text": "w = w0 + 1; w"}
+        act = {"act": "exec_same", "text": "w = w0 + 1; w2 = w; w2"}
     elif action == "lock_ctx":
         act = {"act": "lock_ctx"}
     elif action == "rereg_self":
@@ -126,9 +126,17 @@ def check_scenario(rec, follow_rec, exp):
     return bad
 
 
+DEEP = 100
+
+
 def all_scenarios():
     out = []
     i = 0
+    # "at any nesting depth": a chain of DEEP handlers, each re-entering execute to call the next one
+    for kind in ("gfn", "cfn-call", "infix", "setter", "postfix"):
+        for action in ("exec_fresh", "exec_same", "parse"):
+            out.append((i, kind, action, DEEP, 1))
+            i += 1
     for kind in KINDS:
         for action in ACTIONS:
             for nesting in (1, 2, 3):
@@ -192,7 +200,7 @@ def run(rep, tier):
     for part in common.pmap(run_shard, shards):
         rep.merge(part)
     rep.extra["exhaustive"] = True
-    rep.extra["exhaustive_space"] = "7 handler kinds x 9 actions x 3 nesting depths x 3 positions = %d scenarios, under both profiles" % len(scns)
+    rep.extra["exhaustive_space"] = "7 handler kinds x 9 actions x 3 nesting depths x 3 positions = 567 scenarios + 15 chains of %d nested re-entrant handlers, under both profiles" % DEEP
     rep.floor = 1000
 
 
